@@ -1,4 +1,5 @@
-import SafeNet.Proofs.StoreHistory
+import SafeNet.Proofs.StoreReach
+import SafeNet.Proofs.StoreCipher
 /-!
 # C02 — a restarted node never serves corrupted records and keeps completed writes
 
@@ -178,6 +179,100 @@ theorem restart_removed_stay_removed (cfg : Cfg) (dist : Nat → Nat) (s : St)
   · simp only [SafeNet.Store.get, restart, lookup, hidx]
   · simp only [contains, restart, hidx, Option.isSome_none]
 
+/-! ## the same for the state after any history -/
+
+/-- `restart_keeps_completed` for the state after **any** history (any schedule, earlier crashes included): the
+file-name uniqueness it needs holds in every reachable state (`DiskOK.run`). -/
+theorem restart_keeps_completed_reachable (cfg : Cfg) (dist : Nat → Nat) (ops : List Op)
+    (torn : List (Nat × Nat)) (hok : torn.all (tearOk (run cfg dist ops)) = true) (k v : Nat)
+    (hfile : lookup k (run cfg dist ops).disk = some (.full v))
+    (hq : ∀ i v rt, (i, Task.write k v rt) ∉ (run cfg dist ops).tasks) (hhdr : hdrClass v ≠ .bad) :
+    let s' := (step cfg dist (run cfg dist ops) (.crash torn)).1
+    get cfg s' k = some (.whole v) ∧ contains s' k = true :=
+  restart_keeps_completed cfg dist _ (DiskOK.run cfg dist ops) torn hok k v hfile hq hhdr
+
+/-- **Completed writes survive, in the words of the history.** In a history that removes nothing in flight: if
+the last store-changing event on `k` is an accepted put of `v` (a record with a valid header) and its write task
+has run — whether or not the notification was handled — then after a stop at this point (any in-flight writes of
+other keys torn anywhere) and a restart, `k` is served with exactly `v` and is listed. -/
+theorem restart_keeps_completed_history (cfg : Cfg) (dist : Nat → Nat) (ops : List Op)
+    (hn : NoRemoveWhileInFlight cfg dist (init cfg dist) ops)
+    (torn : List (Nat × Nat)) (hok : torn.all (tearOk (run cfg dist ops)) = true) (k v i : Nat) (rt : RType)
+    (hlast : lastEvent cfg dist ops k = some (v, rt, i)) (hran : ¬ hasWrite (run cfg dist ops) k)
+    (hhdr : hdrClass v ≠ .bad) :
+    let s' := (step cfg dist (run cfg dist ops) (.crash torn)).1
+    get cfg s' k = some (.whole v) ∧ contains s' k = true := by
+  have hinv := KeyInv.run cfg dist ops hn
+  obtain ⟨_, _, _, hstage⟩ := hinv.present k v rt i hlast
+  have hfile : lookup k (run cfg dist ops).disk = some (.full v) := by
+    rcases hstage with h | ⟨_, _, c, _⟩ | ⟨_, _, c, _⟩
+    · exact absurd ⟨i, v, rt, h⟩ hran
+    · exact c
+    · exact c
+  exact restart_keeps_completed_reachable cfg dist ops torn hok k v hfile
+    (fun i' v' rt' hm => hran ⟨i', v', rt', hm⟩) hhdr
+
+/-- **Completed removals stay removed, in the words of the history.** In a history that removes nothing in
+flight: if the last store-changing event on `k` is a removal (explicit, eviction or clean-up) and no delete task of
+`k` is pending any more, then after a stop and restart `k` is neither served nor listed and has no file. -/
+theorem restart_removed_history (cfg : Cfg) (dist : Nat → Nat) (ops : List Op)
+    (hn : NoRemoveWhileInFlight cfg dist (init cfg dist) ops)
+    (torn : List (Nat × Nat)) (hok : torn.all (tearOk (run cfg dist ops)) = true) (k : Nat)
+    (hlast : lastEvent cfg dist ops k = none) (hdone : ¬ hasDelete (run cfg dist ops) k) :
+    let s' := (step cfg dist (run cfg dist ops) (.crash torn)).1
+    get cfg s' k = none ∧ contains s' k = false ∧ lookup k s'.disk = none := by
+  have hinv := KeyInv.run cfg dist ops hn
+  obtain ⟨hnf, _, _, hd⟩ := hinv.absent k hlast
+  have hfile : lookup k (run cfg dist ops).disk = none := by
+    cases h : lookup k (run cfg dist ops).disk with
+    | none => rfl
+    | some f => exact absurd (hd (by rw [h]; simp)) hdone
+  exact restart_removed_stay_removed cfg dist _ torn hok k hfile
+    (fun i v rt hm => hnf (.inl ⟨i, v, rt, hm⟩))
+
+/-- non-vacuity of the two history-level theorems: key 2's write ran but its notification is lost, key 1 was
+removed and its delete ran; the history removes nothing in flight; after the stop key 2 is served, key 1 is gone -/
+example :
+    let cfg := Cfg.shipped 4 2
+    let d : Nat → Nat := fun k => k
+    let ops : List Op := [.run 0, .put 1 3 .chunk, .put 2 7 (.nonChunk (.whole 7)), .run 1, .run 2, .deliver 1, .remove 1, .run 3]
+    nrwifB cfg d (init cfg d) ops = true ∧ lastEvent cfg d ops 2 = some (7, .nonChunk (.whole 7), 2) ∧
+      lastEvent cfg d ops 1 = none ∧ (run cfg d ops).tasks = [] ∧
+      get cfg (step cfg d (run cfg d ops) (.crash [])).1 2 = some (.whole 7) ∧
+      get cfg (step cfg d (run cfg d ops) (.crash [])).1 1 = none := by
+  decide
+
+/-! ## the AEAD clause of the model follows from the laws of an ideal cipher
+
+`Proofs/StoreCipher.lean`: record files as byte strings under an abstract authenticated cipher `C` with the laws
+`Cipher.Ideal` (correctness, authenticity, no ciphertext a proper prefix of another, key/nonce separation). The
+scan and `get` decrypt under the store key and the nonce of the record key, or skip the file. -/
+
+/-- `get_record_from_bytes` answers a decryption failure with "no record" (regenerated; `decodeFile` and the
+model's `readFile` follow this flag, so `get_sound`, `restart_sound` and `scan_decrypt_or_skip` are proved against it) -/
+theorem decrypt_failure_skips : Gen.Store.decryptFailureSkips = true := by decide
+
+/-- **A restarted node never serves a torn or a foreign file**, by the scan's decrypt-or-skip logic: a completely
+written file decrypts to its value; every strict prefix of it is skipped; a file made under another store key or
+another nonce is skipped. -/
+theorem scan_decrypt_or_skip (C : Cipher) (h : C.Ideal) (storeKey : Nat) (nonceOf : Nat → Nat) (k : Nat) (v : Bytes) :
+    decodeFile C storeKey nonceOf k (C.enc storeKey (nonceOf k) v) = some v ∧
+    (∀ n, n < (C.enc storeKey (nonceOf k) v).length →
+      decodeFile C storeKey nonceOf k ((C.enc storeKey (nonceOf k) v).take n) = none) ∧
+    (∀ key' nonce', ¬ (key' = storeKey ∧ nonce' = nonceOf k) →
+      decodeFile C storeKey nonceOf k (C.enc key' nonce' v) = none) :=
+  ⟨decode_full h _ _ _ _, fun n hn => decode_torn h _ _ _ _ n hn, fun k' n' hne => decode_foreign h _ _ _ k' n' _ hne⟩
+
+/-- the model's `readFile true` is what decrypt-or-skip computes on the rendered bytes -/
+theorem aead_clause_refines (C : Cipher) (h : C.Ideal) (storeKey : Nat) (nonceOf : Nat → Nat) (valBytes : Nat → Bytes)
+    (k : Nat) (f : File) (hwf : ∀ v n, f = .torn v n → n < (C.enc storeKey (nonceOf k) (valBytes v)).length) :
+    decodeFile C storeKey nonceOf k (render C storeKey nonceOf valBytes k f) =
+      (readFile true f).map (fun r => valBytes (match r with | .whole v => v | .part v _ => v)) :=
+  readFile_refines h storeKey nonceOf valBytes k f hwf
+
+/-- the cipher laws are jointly satisfiable -/
+theorem ideal_cipher_exists : ∃ C : Cipher, C.Ideal := ⟨toyCipher, toyCipher_ideal⟩
+
 /-! ## removals by clean-up schedule the file deletion -/
 
 theorem foldl_removeKey_index' (dist : Nat → Nat) (ks : List Nat) (s : St) :
@@ -260,6 +355,13 @@ example :
 #print axioms SafeNet.Props.C02.write_done_file
 #print axioms SafeNet.Props.C02.restart_removed_stay_removed
 #print axioms SafeNet.Props.C02.cleanup_removal_spawns_delete
+#print axioms SafeNet.Props.C02.restart_keeps_completed_reachable
+#print axioms SafeNet.Props.C02.restart_keeps_completed_history
+#print axioms SafeNet.Props.C02.restart_removed_history
+#print axioms SafeNet.Props.C02.decrypt_failure_skips
+#print axioms SafeNet.Props.C02.scan_decrypt_or_skip
+#print axioms SafeNet.Props.C02.aead_clause_refines
+#print axioms SafeNet.Props.C02.ideal_cipher_exists
 #print axioms SafeNet.Props.C02.restart_no_encrypt_witness
 #print axioms SafeNet.Props.C02.restart_torn_absent_example
 end SafeNet.Props.C02
